@@ -1,13 +1,14 @@
 (* Run/R_C12.v -- correspondence runner for C12: every term of the single losses with a parameter
    batch (any subset of the keys a, b, c), observed parameters, heterogeneity maps.
    Network U(p; b) = P(p) + b; residual r = a * U + c + q(p), a possibly replaced by
-   h(p) * a inside the equation (heterogeneity). *)
+   h(p) * a and c by h2(p) * a + c inside the equation (heterogeneity; both read the given a). *)
 From Coq Require Import ZArith List Bool Arith QArith Qcanon.
 From JV Require Export Kit.Field Kit.Expr Kit.NumRun Model.M_lossterms Model.M_params.
 From JV Require Import Inst.I_params.
 Import ListNotations.
 Record case := mkcase {
   cid : nat; nvars : nat; P : poly; q : poly; h : option poly;      (* h: heterogeneity factor of a *)
+  h2 : option poly;                         (* heterogeneity of c: c := h2(p) * a + c, a and c the GIVEN parameters *)
   plain : list QcF;                         (* caller's a, b, c *)
   batched : list (nat * list QcF);          (* param_batch_dict (key index -> rows) *)
   obs_batched : list (nat * list QcF);      (* observed eq_params (for the observation term) *)
@@ -22,8 +23,9 @@ Definition par (c : case) (batch : list (nat * list QcF)) (i k : nat) : QcF :=
 Definition pv (c : case) (p : poly) (pt : list QcF) := evq (mkenv pt [] []) (polyIn (nvars c) p).
 Definition U (c : case) batch i pt : QcF := (pv c (P c) pt + par c batch i 1)%K.
 Definition a_eff (c : case) batch i pt : QcF := match h c with Some hp => (pv c hp pt * par c batch i 0)%K | None => par c batch i 0 end.
+Definition c_eff (c : case) batch i pt : QcF := match h2 c with Some hp => (pv c hp pt * par c batch i 0 + par c batch i 2)%K | None => par c batch i 2 end.
 Definition dyn (c : case) : QcF :=
-  meanK (map (fun ip => let '(i, pt) := ip in (w c * sq (a_eff c (batched c) i pt * U c (batched c) i pt + par c (batched c) i 2 + pv c (q c) pt))%K)
+  meanK (map (fun ip => let '(i, pt) := ip in (w c * sq (a_eff c (batched c) i pt * U c (batched c) i pt + c_eff c (batched c) i pt + pv c (q c) pt))%K)
              (combine (seq 0 (length (pts c))) (pts c))).
 Definition nrows (c : case) : nat := match batched c with (_, rows) :: _ => length rows | [] => 1 end.
 Definition icv (c : case) : QcF :=
